@@ -2,7 +2,7 @@
    the containers the allocator does not own hold no deletion marker, the owned-only in-place sweep denotes
    Path.delete_empty. *)
 From Coq Require Import List ZArith NArith Bool Lia Permutation.
-From Verif Require Import c02.Path c02.PathProofs c02.HeapPath c02.HeapInv c02.HeapProofs c02.HeapSlice c02.HeapAbs.
+From Verif Require Import c02.Path c02.PathProofs c02.HeapPath c02.HeapInv c02.HeapProofs c02.HeapSlice c02.HeapInner c02.HeapAbs.
 Import ListNotations.
 Open Scope nat_scope.
 
